@@ -2,7 +2,7 @@
 and dictionary compression is decoded by the independent Lean decoder (Model/Frame.lean) and its decode trace is checked by
 Conform.checkFrame: content-size / checksum / reserved bits, block-size limit, window rule per sequence, interop rules."""
 import hashlib
-import build, zv, frames, datagen, dictgen
+import build, zv, frames, datagen, dictgen, segfam
 from props import c01
 
 ASSUMPTIONS = ["the independent decoder + Conform predicate are the oracle for 'valid frame under the specification' (they accept exactly what Model/Frame.lean accepts in strict mode)",
@@ -168,6 +168,17 @@ def correspondence(ctx):
     cases = gen_cases(ctx)
     lines = [line_for(ctx.rng, c) for c in cases]
     frs = frames.parallel(lambda ch: frames.run_lines(exe, ch, timeout=1800)[1], frames.split_chunks(lines, 16))
+    frs += ["err missing"] * (len(lines) - len(frs))
+    # directed call histories on the caller's own memory (harness/zvh_seg.c; drawn after the others: their stream is unchanged):
+    # begin / continue / end over segments (tiny first / middle segments; separate heap blocks, contiguous, ring buffer, one overwritten buffer; raw and
+    # formatted dictionaries attached / loaded) and the prefix-edge family through compress2 and compressStream2 (stable / copied input, several chunkings)
+    dcases = segfam.seg_cases(ctx.rng, 230 if ctx.quick() else 3000)
+    ecases = segfam.edge_cases(ctx.rng, 56 if ctx.quick() else 800, 8 if ctx.quick() else 100, chunked=True)
+    for c in ecases: c["mode"] = "pre"
+    dlines = [segfam.seg_line(c) for c in dcases] + [segfam.pre_line(c) for c in ecases]
+    sexe = segfam.harness()
+    dfr = segfam.run_all(sexe, dlines)
+    cases, lines, frs = cases + dcases + ecases, lines + dlines, frs + dfr
     cl = []
     for c, f, ln in zip(cases, frs, lines):
         c["line"] = ln
@@ -175,10 +186,23 @@ def correspondence(ctx):
         c["raw"] = f
         cl.append("conform %s %s %s %d %d %d" % (c["frame"], frames.hx(c["x"]), frames.hx(c["d"]), c["p"].get(1015, 0), 0, 1 if c["p"].get(130) else 0) if not f.startswith("err") else "bad")
     conf = frames.parallel(lambda ch: frames.model_lines(ch), frames.split_chunks(cl, 16))
+    # the directed frames also go through the library's own decoder (with the dictionary): decode(frame, dict) == concatenation of the segments
+    dd = [c for c in cases if c["mode"] in ("seg", "pre") and not c["raw"].startswith("err")]
+    ldec = frames.parallel(lambda ch: frames.run_lines(exe, ch)[1], frames.split_chunks(
+        [ln for c in dd for ln in ("dec %d %s%s" % (len(c["x"]), c["frame"], (" " + frames.hx(c["d"])) if c["d"] else ""), "xxh " + frames.hx(c["x"]))], 16))
+    for k, c in enumerate(dd):
+        c["libdec"], c["want"] = (ldec[2 * k], ldec[2 * k + 1]) if 2 * k + 1 < len(ldec) else ("missing", "?")
     modes, distinct, cov, rejected = {}, set(), 0, 0
     for c, r in zip(cases, conf):
         modes[c["mode"]] = modes.get(c["mode"], 0) + 1
         rep = dict(kind="monitor", op=c["line"][:400000], frame=c["frame"][:300000], result=r)
+        if c["mode"] in ("seg", "pre"): rep["harness"] = "zvh_seg"
+        if c.get("libdec") and c["libdec"] != c["want"]:
+            ctx.violation("the library's decoder does not regenerate the input from the emitted frame: %s, expected %s (mode %s, params %s, %s)" % (
+                c["libdec"], c["want"], c["mode"], frames.pstr(c["p"]), c["line"][:80]), rep)
+            if len(ctx.violations) >= 5:
+                break
+            continue
         if c["raw"].startswith("err"):
             if "parameter" in c["raw"]:
                 rejected += 1
@@ -196,13 +220,15 @@ def correspondence(ctx):
     return dict(evaluations=len(cases) + ntie, distinct_nontrivial=len(distinct), header_writer_tie_calls=ntie,
                 rule="frames from compress2 / compressStream2 under random call histories / multithreaded compression (1-3 workers, jobSize, overlapLog, rsyncable) / dictionaries, "
                      "including inputs several windows long with repeats placed just inside / at / just beyond the window (windowLog 10..17, LDM on/off); each frame is decoded by the independent Lean decoder and its "
-                     "trace checked by Conform.checkFrame; distinct = (input hash, call line prefix)",
+                     "trace checked by Conform.checkFrame; plus (tools/segfam.py) frames from compressBegin[_usingDict|_usingCDict|_advanced|_usingCDict_advanced] / compressContinue / compressEnd over segmented inputs "
+                     "(0..8-byte first and middle segments; separate heap blocks, contiguous, ring buffer, one overwritten buffer; raw-content and formatted dictionaries recurring in the input; levels 1..19) and the "
+                     "prefix-edge family (byte in front of the source buffer chosen) through compress2 / compressStream2 with stable and copied input; distinct = (input hash, call line prefix)",
                 samples=[dict(op=c["line"][:100], result=r[:100]) for c, r in list(zip(cases, conf))[:3]], modes=modes, params_rejected=rejected,
                 decoder_feature_bitmap=cov)
 
 
 def replay(ctx, data):
-    exe = frames.harness()
+    exe = segfam.harness() if data.get("harness") == "zvh_seg" else frames.harness()
     ln = data.get("op")
     f = frames.run_lines(exe, [ln])[1][0].split()[0]
     return dict(violates=True, frame=f[:200], note="re-run the conform line of the evidence with this frame")
